@@ -37,8 +37,12 @@ fn base(rng: &mut Rng) -> ConnCase {
 /// Inserts an AbortRequest record at byte offset `at` of request `j` and fixes up all offsets.
 fn with_abort(rng: &mut Rng, base: &ConnCase, j: usize, at: usize, id: u16) -> ConnCase {
     let mut rec = Vec::new();
-    let body = rng.rbytes(41);
-    wire::record(&mut rec, wire::ABORT, id, &body, gen::gen_padding(rng));
+    // "any body/padding on the abort record itself": mostly small, sometimes so large that
+    // content + padding exceeds 65535 (the skip arithmetic must not be done in 16 bits)
+    let huge = rng.chance(1, 16);
+    let body = if huge { let n = 65_281 + rng.below(255); rng.bytes(n) } else { rng.rbytes(41) };
+    let padding = if huge { 255 } else { gen::gen_padding(rng) };
+    wire::record(&mut rec, wire::ABORT, id, &body, padding);
     let mut case = base.clone();
     case.wire.splice(at..at, rec.iter().copied());
     let n = rec.len();
@@ -257,7 +261,7 @@ pub fn run(ctx: &Ctx, evidence: Option<&PathBuf>) -> i32 {
     ctx.gate("sync_aborts_during_params", 20);
     ctx.finish(
         "fault_enumeration",
-        "for each scripted keep-alive connection (1..3 requests, all roles, management / stray records, handlers reading / buffered-reading / not reading / reading past EOF / awaiting writeable, returning their own Complete(x) or propagating the error): an AbortRequest (body 0..40 B, padding 0..255) is inserted \
+        "for each scripted keep-alive connection (1..3 requests, all roles, management / stray records, handlers reading / buffered-reading / not reading / reading past EOF / awaiting writeable, returning their own Complete(x) or propagating the error): an AbortRequest (body 0..40 B, padding 0..255; one in 16 with a 65281..65535 B body and 255 B padding) is inserted \
          before the first record and after EVERY record of one request's preamble and input streams, for the active id and (sampled) for foreign ids; each variant runs through Token::run under the deterministic executor with short / pending transport, and the active-id variants additionally through request::Parser + stream::Parser directly. \
          Oracle: abort during Params => exactly one EndRequest(RequestComplete, id) from the parser, no handler invocation, following requests served with exact environment / streams / EndRequest; abort later => handler reads deliver only a prefix of E(s), never an end-of-file on the aborted stream, the only error kind is ConnectionAborted, \
          exactly one EndRequest(RequestComplete) with app status ABRT if the handler propagated the error and its own status otherwise; foreign-id aborts change nothing (full C07 oracle); sync: AbortRequest reported only once the abort header was fed, repeated by later calls, abort header retained as the unread remainder, next request parsed exactly. \
